@@ -1,3 +1,60 @@
-//! Compile / compile-fail witnesses (C11) — filled in later.
+//! Compile / compile-fail witnesses (C11): definitions whose recorded type
+//! information is perturbed, each paired with an unperturbed twin.
 use super::*;
-pub fn specs(_thorough: bool) -> Vec<ModuleSpec> { Vec::new() }
+use Strategy::*;
+use Ty::*;
+
+fn half(x: usize) -> usize { x / 2 }
+fn dbl(x: usize) -> usize { if x == 0 { 1 } else { x * 2 } }
+fn plus1(x: usize) -> usize { x + 1 }
+fn minus1(x: usize) -> usize { x - 1 }
+
+fn history(ty: Ty, uninit: bool, perturb: Perturb, later: bool) -> Vec<Step> {
+    let subject = Step::Add { name: "w".to_owned(), ty, uninit, perturb };
+    if later {
+        vec![add("a", Str), addu("b", U8), close(Simple), rm("b"), subject, close(Simple)]
+    } else {
+        vec![addu("b", U8), subject, add("a", Str), close(Simple)]
+    }
+}
+
+pub fn specs(thorough: bool) -> Vec<ModuleSpec> {
+    let pool: Vec<Ty> = if thorough {
+        ALL_TYPES.to_vec()
+    } else {
+        vec![U32, Str, Odd12, Over16, A3U8, U128]
+    };
+    let mut out = Vec::new();
+    for &ty in &pool {
+        for later in [false, true] {
+            let pos = if later { "later" } else { "first" };
+            let mut twin = ModuleSpec::new(format!("wit/{}/{}/twin", ty.name(), pos), history(ty, false, Perturb::default(), later));
+            twin.expect = Some("compiles".into());
+            out.push(twin);
+            let mut cases: Vec<(&str, Perturb)> = Vec::new();
+            cases.push(("size+1", Perturb { size: Some(plus1), align: None }));
+            if ty.size() >= 1 {
+                cases.push(("size-1", Perturb { size: Some(minus1), align: None }));
+            }
+            cases.push(("align*2", Perturb { size: None, align: Some(dbl) }));
+            if ty.align() >= 2 {
+                cases.push(("align/2", Perturb { size: None, align: Some(half) }));
+            }
+            for (label, p) in cases {
+                let mut m = ModuleSpec::new(format!("wit/{}/{}/{}", ty.name(), pos, label), history(ty, false, p, later));
+                m.expect = Some("E0080".into());
+                out.push(m);
+            }
+            if !ty.is_copy() {
+                let mut m = ModuleSpec::new(format!("wit/{}/{}/uninit-not-copy", ty.name(), pos), history(ty, true, Perturb::default(), later));
+                m.expect = Some("E0277".into());
+                out.push(m);
+            } else {
+                let mut m = ModuleSpec::new(format!("wit/{}/{}/uninit-copy-twin", ty.name(), pos), history(ty, true, Perturb::default(), later));
+                m.expect = Some("compiles".into());
+                out.push(m);
+            }
+        }
+    }
+    out
+}
